@@ -817,21 +817,21 @@ func (t *tree) parseQuotedExpr(str string) ast.Node {
 }
 
 var precedence = map[itemType]int{
-	itemNot:    6,
-	itemNegate: 6,
-	itemMul:    5,
-	itemDiv:    5,
-	itemMod:    5,
-	itemAdd:    4,
-	itemSub:    4,
+	itemNot:    7,
+	itemNegate: 7,
+	itemMul:    6,
+	itemDiv:    6,
+	itemMod:    6,
+	itemAdd:    5,
+	itemSub:    5,
+	itemGt:     4,
+	itemGte:    4,
+	itemLt:     4,
+	itemLte:    4,
 	itemEq:     3,
 	itemNotEq:  3,
-	itemGt:     3,
-	itemGte:    3,
-	itemLt:     3,
-	itemLte:    3,
-	itemOr:     2,
-	itemAnd:    1,
+	itemAnd:    2,
+	itemOr:     1,
 	itemElvis:  0,
 }
 
